@@ -53,6 +53,25 @@ _D.ENABLE_DEFERRED_PACKET_PARSING = False
 DESER = UDPMessageDeserializer(settings=_D)
 
 
+def _spells_close(dg: bytes) -> bool:
+    """does this (corrupted) datagram happen to read as one of the two circuit-closing messages?  (own reading of the header)"""
+    if len(dg) < 7:
+        return False
+    body = dg[6 + dg[5]:]
+    if dg[0] & 0x80:
+        out = bytearray()
+        i = 0
+        while i < len(body) and len(out) < 8:
+            if body[i] == 0 and i + 1 < len(body):
+                out += bytes(body[i + 1])
+                i += 2
+            else:
+                out.append(body[i])
+                i += 1
+        body = bytes(out)
+    return body[:4] in (b"\xff\xff\x00\x98", b"\xff\xff\xff\xfd")
+
+
 def _fix_case(case, classes):
     """keep the proxy's own command channel out of the valid traffic"""
     if case["name"] == "PacketAck":
@@ -358,6 +377,11 @@ class Run:
                 bad = bytes([0x10 | (0x40 if p & 0x1000 else 0)]) + struct.pack(">I", 50000 + p) + b"\x00" + first + b"\x00\x00\x00\x07" * (n_acks - 1) + bytes([n_acks])
             else:
                 bad = payload[:6] + b"\xff\xff\x7f\xf0" + payload[6:]
+            if kind in ("truncated", "bitflip") and _spells_close(bad):
+                # the corruption turned the datagram into a valid circuit-closing message: not a fault any more
+                self.classes.pop()
+                self.classes.append("excluded:corruption-spells-close")
+                return None
             if inbound:
                 sent, exc = w.from_sim(v, addr, bad)
             else:
@@ -473,6 +497,9 @@ def _events(nv, nr):
         st.tuples(st.just("s2v"), vs, rs, s2v_case), st.tuples(st.just("s2v"), vs, rs, s2v_case),
         # a circuit-opening request travelling the other way is a message like any other
         st.tuples(st.just("s2v"), vs, rs, gt.message_case(names=["UseCircuitCode", "RegionHandshake"], **small)),
+        # (the last region is the neighbour that was announced without a handle: this is where it gets one)
+        st.tuples(st.just("s2v"), vs, st.just(nr - 1), gt.message_case(names=["RegionHandshake"], **small)),
+        st.tuples(st.just("ucc"), vs, st.just(nr - 1)),
         # names that are served over HTTP these days are refused when they come in over UDP - going out they are ordinary traffic
         st.tuples(st.just("v2s"), vs, rs, banned_case),
         st.tuples(st.just("close"), vs, rs, st.booleans()),
